@@ -23,6 +23,7 @@ NSLOCALS = [(None, 'a'), (None, 'b'), ('urn:x', 'a'), ('urn:y', 'a'), ('urn:y', 
 DATA = ['', 'x', 'hello', ' ', '  \n', 'a&b<c', 'é€', '0123456789', 'ab', ']]>']
 ENTNAMES = ['e1', 'e2', 'nope', '1x']
 PITARGETS = ['p', 'xml-stylesheet', 'q', '1p']
+SIZE_MAX = 2 ** 64 - 1
 TAGQ = ['a', 'b', '*', 'k', 'p:a', 'r', 'zz']
 TAGQNS = [('*', '*'), ('urn:x', 'a'), ('urn:x', '*'), ('*', 'a'), (None, 'a'), (None, '*'), ('urn:y', 'b')]
 
@@ -71,6 +72,33 @@ class Hist(object):
     def __init__(self, world, optable, active_excl, with_views=False):
         self.w = world; self.ops = optable; self.excl = set(active_excl); self.steps = []; self.excluded = collections.Counter()
         self.with_views = with_views; self.labels = set(); self.inserted_parents = set(); self.tainted = set()
+        self.gen = 1        # version of the integer -> offset/count mapping (stored cases without 'gen' keep the old mapping)
+
+    # ---- offsets and counts (XMLSize_t is a 64-bit unsigned type; the harness static_asserts that) ---------------
+    def size_extremes(self, ln, offset=None):
+        E = [SIZE_MAX, SIZE_MAX - 1, SIZE_MAX - 2, SIZE_MAX - 3, SIZE_MAX - ln, SIZE_MAX - ln - 1, SIZE_MAX // 2, SIZE_MAX // 2 + 1,
+             2 ** 32 - 1, 2 ** 32, 2 ** 32 + 1, 2 ** 31, 2 ** 31 - 1, 65536, 5000, 4096, 4095, ln, ln + 1, max(0, ln - 1)]
+        if offset is not None:       # the values around which offset + count wraps
+            E += [SIZE_MAX - offset, SIZE_MAX - offset + 1 if offset else SIZE_MAX, SIZE_MAX - offset + 2 if offset > 1 else SIZE_MAX, max(0, ln - offset), ln - offset + 1 if offset <= ln else 0]
+        return E
+    def gen_offset(self, v, ln, slack=3):
+        """an offset argument: mostly 0..ln+slack-1 (so a few are just out of range), one in eight an extreme value"""
+        if self.gen < 2: return v % (ln + slack)
+        sel, idx = v % 8, v // 8
+        if sel == 7: E = self.size_extremes(ln); x = min(max(E[idx % len(E)], 0), SIZE_MAX); self.labels.add('extreme-offset'); return x
+        return idx % (ln + slack)
+    def gen_count(self, v, ln, offset):
+        """a count argument: mostly 0..ln+3, one in four an extreme value (2^31, 2^32, SIZE_MAX/2, SIZE_MAX-k, the wrap-around neighbours)"""
+        sel, idx = v % 8, v // 8
+        if self.gen < 2:
+            if sel == 7: return (4294967295, 65536, 5000, 4096)[idx % 4]
+            return idx % (ln + 4)
+        if sel >= 6:
+            E = self.size_extremes(ln, offset); x = min(max(E[idx % len(E)], 0), SIZE_MAX)
+            self.labels.add('extreme-count')
+            if offset + x > SIZE_MAX: self.labels.add('count-wraps')
+            return x
+        return idx % (ln + 4)
 
     # ---- operand selection ---------------------------------------------------------------------
     def live(self): return [n for n in self.w.nodes if not n.dead]
@@ -228,11 +256,9 @@ class Hist(object):
             n = self.pick_text(a, (TX, CD, CM)) or self.of_type((TX, CD, CM), a)
             if n is None: return None
             ln = len(n.value)
-            def off(v): return v % (ln + 3)
-            def cnt(v):
-                sel, idx = v % 8, v // 8
-                if sel == 7: return (4294967295, 65536, 5000, 4096)[idx % 4]
-                return idx % (ln + 4)
+            _o = self.gen_offset(b, ln); _c = self.gen_count(c, ln, _o)
+            def off(v): return _o
+            def cnt(v): return _c
             s = DATA[d % len(DATA)]
             if op == 'apd': return 'apd\t%s\t%s' % (I(n), esc(s)), w.appendData(n, s)
             self.text_hook(op, n, off(b), min(cnt(c), max(0, ln - off(b))) if off(b) <= ln else 0)
@@ -254,7 +280,7 @@ class Hist(object):
         if op == 'split':
             n = self.pick_text(a, (TX, CD)) or self.of_type((TX, CD), a)
             if n is None: return None
-            o = b % (len(n.value) + 2)
+            o = self.gen_offset(b, len(n.value), slack=2)
             self.split_pre(n, o)
             return 'split\t%s\t%d' % (I(n), o), self.split_hook(n, o, w.splitText(n, o))
         if op == 'norm':
@@ -479,7 +505,7 @@ def run_case(case, ex, optable, views=False, hist_cls=None):
     if inv0 != '-': return False, 'structural invariant violated in the initial state: ' + inv0, None
     w = model_world(init_dump, setup)
     crc0 = '%08x' % (zlib.crc32(w.dump().encode('ascii')) & 0xFFFFFFFF)
-    h = hist_cls(w, optable, case.get('excl', []), with_views=views)
+    h = hist_cls(w, optable, case.get('excl', []), with_views=views); h.gen = case.get('gen', 1)
     h.prelude(setup.get('pre', 0))
     steps = h.run(case['ops'])
     try:
@@ -515,7 +541,7 @@ def run_case(case, ex, optable, views=False, hist_cls=None):
     except xv.ExecutorDied:
         got_dump = '(executor died while re-running for the dump)'
     w2 = model_world(init_dump, setup)
-    h2 = hist_cls(w2, optable, case.get('excl', []), with_views=views)
+    h2 = hist_cls(w2, optable, case.get('excl', []), with_views=views); h2.gen = case.get('gen', 1)
     h2.prelude(setup.get('pre', 0)); npre = len(h2.steps)
     h2.run(case['ops'][:max(0, at + 1 - npre)])
     mdump = w2.dump() + (w2.view_state() if views else '')
@@ -661,7 +687,7 @@ class ViewHist(Hist):
                 sel, idx = b % 4, b // 4
                 n = self.node_in_doc(r.doc, idx, (TX, CD, CM, EL) if sel < 2 else None)
                 if n is None: return None
-                off = c % (dm.clen(n) + 2)
+                off = self.gen_offset(c, dm.clen(n), slack=2)
                 return '%s\t%d\t%s\t%d' % (op, r.id, I(n), off), r.setPoint('s' if op == 'rss' else 'e', n, off)
             if op in ('rsb', 'rsa', 'reb', 'rea', 'rsel', 'rselc'):
                 n = self.node_in_doc(r.doc, b)
